@@ -417,7 +417,10 @@ def scalar_part(ctx, hszinc, spec):
     texts += ['hex("zz")', 'hex("0")', 'b64("!!!")', 'b64("A")', 'C(-,1)', 'C(1,)', '25:00:00', '2020-13-01', '2020-02-30T00:00:00Z',
               '2020-01-01T00:00:00Z Nowhere', '2020-01-01T00:00:00+99:99', '1e999', '-1e999', '1e', '@', '[', '{', '<<', '\\u', '"\\u00"',
               '"\\ud800"', '9' * 400, '1' + '_' * 50, '[' * 30, '{' * 30, 'Bin(', 'N' * 10, '0000-00-00', '9999-99-99', '99:99:99',
-              '2020-01-01T24:00:00Z', 'T', 'F', 'INF', '-INF', 'NaN', '-', '.', '-.', '1.', '.1', '1..2', '--1', '1e+', '1E-']
+              '2020-01-01T24:00:00Z', '0001-01-01T00:00:00Z New_York', '9999-12-31T23:59:59Z Tokyo', '0001-01-01T00:00:00+14:00 UTC',
+              '9999-12-31T23:59:59-12:00 Kiritimati', '0001-01-01T00:00:00Z', '9999-12-31T23:59:59.999999Z', '0001-01-01T00:00:00-00:01 London',
+              '[0001-01-01T00:00:00Z New_York]', '{a:9999-12-31T23:59:59Z Tokyo}', 'C(1e400,1)', 'C(9' + '9' * 400 + ',1)', '1e400kg',
+              '0001-01-01', '9999-12-31', '00:00:00.0000001', 'T', 'F', 'INF', '-INF', 'NaN', '-', '.', '-.', '1.', '.1', '1..2', '--1', '1e+', '1E-']
     n_in = 0
     sj, sn = spec.get('slice', [0, 1])
     for bi, base in enumerate(texts):
